@@ -131,7 +131,10 @@ class Trend(BaseGridder):
         coordinates, data, weights = check_fit_input(coordinates, data, weights)
         easting, northing = n_1d_arrays(coordinates, 2)
         self.region_ = get_region((easting, northing))
-        jac = self.jacobian((easting, northing), dtype=data.dtype)
+        # Integer data must not truncate the (floating point) design matrix
+        jac = self.jacobian(
+            (easting, northing), dtype=np.result_type(data.dtype, "float32")
+        )
         self.coef_ = least_squares(jac, data, weights, damping=None)
         return self
 
@@ -158,7 +161,7 @@ class Trend(BaseGridder):
         check_is_fitted(self, ["coef_"])
         easting, northing = n_1d_arrays(coordinates, 2)
         shape = np.broadcast(*coordinates[:2]).shape
-        data = np.zeros(easting.size, dtype=easting.dtype)
+        data = np.zeros(easting.size, dtype=np.result_type(easting.dtype, "float32"))
         combinations = polynomial_power_combinations(self.degree)
         for coef, (i, j) in zip(self.coef_, combinations):
             data += (easting**i) * (northing**j) * coef
